@@ -56,6 +56,13 @@ def _assign(targets, value, like):
         value = ast.Constant(value=None)
     if len(targets) == 1 and isinstance(targets[0], ast.Name) and isinstance(value, ast.Name) and value.id == targets[0].id:
         return []
+    if len(targets) == 1 and isinstance(targets[0], ast.Tuple) and isinstance(value, ast.Tuple) and len(value.elts) == len(targets[0].elts) \
+            and all(isinstance(t, ast.Name) for t in targets[0].elts):
+        # `a, b, c = a, x, y`: element by element (identities dropped) when no target is read by a later element
+        pairs = [(t, v) for t, v in zip(targets[0].elts, value.elts) if not (isinstance(v, ast.Name) and v.id == t.id)]
+        tn = {t.id for t, _ in pairs}
+        if not any(isinstance(y, ast.Name) and y.id in tn for _, v in pairs for y in ast.walk(v)):
+            return [ast.copy_location(ast.Assign(targets=[copy.deepcopy(t)], value=v), like) for t, v in pairs]
     return [ast.copy_location(ast.Assign(targets=copy.deepcopy(targets), value=value), like)]
 
 
@@ -93,7 +100,11 @@ def _loop_returns_to_breaks(loop, targets):
     return loop
 
 
-def tail_form(stmts, targets):
+def _only_returns(stmts):
+    return all(isinstance(x, ast.Return) or (isinstance(x, ast.If) and _only_returns(x.body) and _only_returns(x.orelse)) for x in stmts)
+
+
+def tail_form(stmts, targets, nest=1):
     """statements of a helper body rewritten so that every `return v` is `<targets> = v`; None when that is not possible
     without a jump"""
     out = []
@@ -110,11 +121,19 @@ def tail_form(stmts, targets):
             b_leaves, o_leaves = _always_leaves(st.body), _always_leaves(st.orelse)
             b_has, o_has = _contains(st.body, (ast.Return,)), _contains(st.orelse, (ast.Return,))
             if b_leaves and (not o_has or o_leaves) and not (o_leaves and rest):
-                nb = tail_form(st.body, targets)
-                no = tail_form(st.orelse + rest, targets) if (st.orelse or rest) else []
+                deeper = nest
+                if rest and not st.orelse and not _only_returns(rest):
+                    # a guard clause (`if c: return X` with more work after it) becomes an if / else; a second one in
+                    # what follows would make a pyramid of else-arms: nothing the reference could look like - such a
+                    # helper is left as a function
+                    if nest <= 0:
+                        return None
+                    deeper = nest - 1
+                nb = tail_form(st.body, targets, nest)
+                no = tail_form(st.orelse + rest, targets, deeper) if (st.orelse or rest) else []
             elif o_leaves and not b_has:
-                nb = tail_form(st.body + rest, targets)
-                no = tail_form(st.orelse, targets)
+                nb = tail_form(st.body + rest, targets, nest)
+                no = tail_form(st.orelse, targets, nest)
             else:
                 return None
             if nb is None or no is None:
@@ -125,7 +144,7 @@ def tail_form(stmts, targets):
             lp = _loop_returns_to_breaks(st, targets)
             if lp is None or not rest:
                 return None
-            tail = tail_form(rest, targets)
+            tail = tail_form(rest, targets, nest)
             if tail is None:
                 return None
             lp.orelse = tail
@@ -190,11 +209,79 @@ def _stores(stmts):
     return out
 
 
-def _ok_args(body, bound):
+def _function_locals(stmts):
+    """names the statements bind in the function's own scope (a comprehension's loop variables live in the comprehension)"""
+    comp = set()
+    for st in stmts:
+        for x in ast.walk(st):
+            if isinstance(x, ast.comprehension):
+                comp |= {id(y) for y in ast.walk(x.target)}
+    out = set()
+    for st in stmts:
+        for x in ast.walk(st):
+            if isinstance(x, ast.Name) and isinstance(x.ctx, (ast.Store, ast.Del)) and id(x) not in comp:
+                out.add(x.id)
+            if isinstance(x, ast.ExceptHandler) and x.name:
+                out.add(x.name)
+    return out
+
+
+def _live_after(f, st, name):
+    """may the value `name` holds when statement st of f completes be read afterwards (before it is overwritten)?"""
+    from .cfg import CFG, defs_in_stmt, header_exprs
+    for x in ast.walk(f):
+        if isinstance(x, (ast.FunctionDef, ast.AsyncFunctionDef, ast.Lambda)) and x is not f and \
+                any(isinstance(y, ast.Name) and y.id == name for y in ast.walk(x)):
+            return True
+    cfg = CFG(f)
+    start = cfg.stmt_node.get(st)
+    if start is None:
+        return True
+    seen, todo = set(), list(cfg.succ[start])
+    while todo:
+        n = todo.pop()
+        if n in seen:
+            continue
+        seen.add(n)
+        node = cfg.nodes[n].stmt
+        if node is not None:
+            reads = any(isinstance(y, ast.Name) and y.id == name and isinstance(y.ctx, ast.Load)
+                        for e in header_exprs(node) for y in ast.walk(e))
+            if isinstance(node, ast.AugAssign) and isinstance(node.target, ast.Name) and node.target.id == name:
+                reads = True
+            if reads:
+                return True
+            if name in defs_in_stmt(node):
+                continue
+        todo.extend(cfg.succ[n])
+    return False
+
+
+def _ok_args(body, bound, targets=None):
     for p, arg in bound.items():
         if not _simple(arg) and _uses(body, p) > 1:
             return False
-    return not (_stores(body) & set(bound))
+    stored = _stores(body) & set(bound)
+    if not stored:
+        return True
+    # a parameter the body re-binds: only `v, a, b = helper(v, ..)` with `return v, x, y` - the caller's variable is
+    # given the parameter's final value in any case
+    if not isinstance(targets, list) or len(targets) != 1 or not isinstance(targets[0], ast.Tuple):
+        return False
+    tg = targets[0].elts
+    rets = [x for st in body for x in ast.walk(st) if isinstance(x, ast.Return)]
+    if not rets or not all(isinstance(r.value, ast.Tuple) and len(r.value.elts) == len(tg) for r in rets):
+        return False
+    for p in stored:
+        arg = bound[p]
+        if not isinstance(arg, ast.Name):
+            return False
+        idx = [i for i, t in enumerate(tg) if isinstance(t, ast.Name) and t.id == arg.id]
+        if len(idx) != 1:
+            return False
+        if not all(isinstance(r.value.elts[idx[0]], ast.Name) and r.value.elts[idx[0]].id == p for r in rets):
+            return False
+    return True
 
 
 def _positions(nodes, like, k):
@@ -216,6 +303,54 @@ def _ordered(node):
             rec(c)
     rec(node)
     return out
+
+
+def _first_evaluated(st):
+    """the call that is evaluated before anything else with an effect in statement st (a Return / Assign / Expr), when it
+    is not the whole value: `return h(a).sum()`, `x = h(a)[0] + 1`, `g(h(a), b)`; None otherwise"""
+    if not isinstance(st, (ast.Return, ast.Assign, ast.Expr)) or st.value is None:
+        return None
+    if isinstance(st, ast.Assign) and not all(isinstance(t, ast.Name) for t in st.targets):
+        return None
+    e = st.value
+    top = e
+    while True:
+        if isinstance(e, ast.Call):
+            if isinstance(e.func, ast.Attribute) and not _simple(e.func):
+                e = e.func.value          # the receiver comes first
+                continue
+            if _simple(e.func):
+                if e is not top:
+                    return e
+                if e.args and not isinstance(e.args[0], ast.Starred):
+                    e = e.args[0]
+                    continue
+            return None
+        if isinstance(e, ast.Attribute):
+            e = e.value
+        elif isinstance(e, ast.Subscript):
+            e = e.value
+        elif isinstance(e, ast.BinOp):
+            e = e.left
+        elif isinstance(e, ast.Compare):
+            e = e.left
+        elif isinstance(e, ast.UnaryOp):
+            e = e.operand
+        elif isinstance(e, (ast.Tuple, ast.List)) and e.elts:
+            e = e.elts[0]
+        else:
+            return None
+
+
+class _Swap(ast.NodeTransformer):
+    def __init__(self, old, new):
+        self.old, self.new = old, new
+
+    def visit_Call(self, node):
+        if node is self.old:
+            return self.new
+        self.generic_visit(node)
+        return node
 
 
 def splice(tree, known_top, known_methods, known_closures, top_functions):
@@ -274,6 +409,33 @@ def splice(tree, known_top, known_methods, known_closures, top_functions):
                         elif isinstance(st, ast.Return) and isinstance(st.value, ast.Call):
                             call, targets = st.value, 'return'
                         h = lookup(call, qual, f) if call is not None else None
+                        if h is None and not any(st is y for hh in helpers.values() for y in ast.walk(hh[0])):
+                            # a helper of several statements whose call is the first thing the statement evaluates
+                            # (`return h(a).sum()`): its statements go in front, its result expression into the statement
+                            inner = _first_evaluated(st)
+                            h2 = lookup(inner, qual, f) if inner is not None else None
+                            if h2 is not None:
+                                fn, kind, owner = h2
+                                body = copy.deepcopy(_body(fn))
+                                bound = _bind(fn, inner, kind == 'method')
+                                key = (kind, getattr(owner, 'name', None) if kind != 'top' else None, fn.name)
+                                locs = _function_locals(body) - set(bound or ())
+                                others = {y.id for y in ast.walk(f) if isinstance(y, ast.Name)}
+                                if bound is not None and len(body) > 1 and isinstance(body[-1], ast.Return) and body[-1].value is not None \
+                                        and not _contains(body[:-1], (ast.Return, ast.Yield, ast.YieldFrom, ast.Global, ast.Nonlocal, ast.FunctionDef, ast.ClassDef, ast.Await), stop=()) \
+                                        and _ok_args(body, bound) and not any(_live_after(f, st, nm_) or nm_ in {y.id for y in ast.walk(st) if isinstance(y, ast.Name)}
+                                                                              for nm_ in sorted(locs & others)):
+                                    new = [_Params(bound).visit(x) for x in body[:-1]]
+                                    res = _Params(bound).visit(body[-1]).value
+                                    for k_, x in enumerate(new):
+                                        _positions([x], st, k_)
+                                    _positions([res], inner, len(new))
+                                    st2 = _Swap(inner, res).visit(st)
+                                    blk[i:i + 1] = new + [st2]
+                                    spliced[key] = spliced.get(key, 0) + 1
+                                    changed = True
+                                    i += len(new) + 1
+                                    continue
                         if h is None or any(st is y for y in ast.walk(h[0])):
                             i += 1
                             continue
@@ -281,17 +443,19 @@ def splice(tree, known_top, known_methods, known_closures, top_functions):
                         body = copy.deepcopy(_body(fn))
                         bound = _bind(fn, call, kind == 'method')
                         key = (kind, getattr(owner, 'name', None) if kind != 'top' else None, fn.name)
-                        if bound is None or not body or not _ok_args(body, bound) or \
+                        if bound is None or not body or not _ok_args(body, bound, targets) or \
                                 _contains(body, (ast.Yield, ast.YieldFrom, ast.Global, ast.Nonlocal, ast.FunctionDef, ast.ClassDef, ast.Await), stop=()):
                             failed.add(key); i += 1; continue
                         if len(body) == 1 and isinstance(body[0], ast.Return) and body[0].value is not None and targets != 'return' and targets is not None:
                             i += 1          # an expression helper in an assignment: left to step (2)
                             continue
-                        locs = _stores(body) - set(bound)
+                        locs = _function_locals(body) - set(bound)
                         others = {y.id for y in ast.walk(f) if isinstance(y, ast.Name)} - {y.id for y in ast.walk(st) if isinstance(y, ast.Name)}
                         if kind == 'closure':
                             others -= {y.id for y in ast.walk(fn) if isinstance(y, ast.Name)}
-                        if locs & others:
+                        # (a local of the helper may share its name with a variable of the caller whose value is dead
+                        # once the call statement is done: the other arm of an if, a variable re-bound before its next read)
+                        if any(_live_after(f, st, nm_) for nm_ in sorted(locs & others)):
                             failed.add(key); i += 1; continue
                         if targets == 'return':
                             new = [_Params(bound).visit(x) for x in body]
